@@ -178,7 +178,10 @@ class HeapMaintenance(Harness):
         for i in range(K):
             mk = case["kinds"][i] == "1"
             ttl = g.int(f"ttl{i}", 1, 3) if with_ttl else None
-            o = new_order(g, str(i), is_buy=is_buy, market=mk, ttl=ttl, volume=1 if case["deep"] else None)
+            # deep books: concrete volumes (1 lot; 2 lots when a partial round precedes the sweep so that the round
+            # leaves the top order in place)
+            dv = 2 if case["ops"] == ["R"] else 1
+            o = new_order(g, str(i), is_buy=is_buy, market=mk, ttl=ttl, volume=dv if case["deep"] else None)
             vol, price = o.volume, o.price
             if case["deep"]:
                 # deep books: pairwise distinct prices (price ties are covered by the books of <= 4 orders; with ties
@@ -210,7 +213,7 @@ class HeapMaintenance(Harness):
                 m._execution()
                 recs[i]["dead"] = True
         self._round(g, m, recs, is_buy, "x", market=case.get("sweep_market", False),
-                    volume=K if case["deep"] else None)
+                    volume=(K if case["ops"] != ["R"] else 2 * K - 1) if case["deep"] else None)
 
 
 class C02_OrderLaws(OrderLaws):
